@@ -55,22 +55,23 @@ Variable A : Type.
 Variable upd : A -> effect -> A.
 Variable I : A -> machine -> Prop.        (* holds at every loop head and at rest *)
 Variable P : A -> effect -> Prop.         (* holds of every effect, given what happened before it *)
-Variable E : machine -> string -> Prop.   (* which event may be processed in which machine state *)
+Variable E : A -> machine -> string -> Prop.   (* which event may be processed in which machine state, given what happened *)
 
 Notation trok := (tr_ok upd P).
 Notation aend := (acc_end upd).
 
 Hypothesis I_retries : forall a m r, I a m -> I a (m <| m_retries := r |>).
-Hypothesis E_retries : forall m r ev, E m ev -> E (m <| m_retries := r |>) ev.
+Hypothesis E_retries : forall a m r ev, E a m ev -> E a (m <| m_retries := r |>) ev.
+Hypothesis E_persist : forall a m ev s d ok, E a m ev -> E (upd a (EPersist s d ok)) m ev.
 Hypothesis persist_rule : forall a m ok, I a m ->
   P a (EPersist (m_cur m) (m_data m) ok) /\ I (upd a (EPersist (m_cur m) (m_data m) ok)) m.
 
 Hypothesis act_rule :
-  forall a m ev nxt sd act, I a m -> E m ev ->
+  forall a m ev nxt sd act, I a m -> E a m ev ->
     next_state t (m_cur m) ev = Some nxt -> lookup_state t nxt = Some sd -> st_action sd = Some act ->
     forall w ev' d' w' es,
       exec tc decode action_fuel act (m_data (enter m nxt)) w = ((ev', d'), w', es) ->
-      trok a es /\ I (aend a es) ((enter m nxt) <| m_data := d' |>) /\ E ((enter m nxt) <| m_data := d' |>) ev'.
+      trok a es /\ I (aend a es) ((enter m nxt) <| m_data := d' |>) /\ E (aend a es) ((enter m nxt) <| m_data := d' |>) ev'.
 
 Lemma persist_acc a m w ok w' es :
   I a m -> persist m w = (ok, w', es) ->
@@ -81,7 +82,7 @@ Proof.
 Qed.
 
 Lemma event_loop_acc fuel : forall a m ev w m' res w' es,
-  I a m -> E m ev ->
+  I a m -> E a m ev ->
   event_loop tc decode t fuel m ev w = ((m', res), w', es) ->
   trok a es /\ I (aend a es) m'.
 Proof.
@@ -105,6 +106,7 @@ Proof.
     apply bind_inv in H. destruct H as (ok & w2 & e3 & e4 & Hp & H & ->).
     destruct (persist_acc _ _ _ _ _ _ HI2 Hp) as (-> & T3 & HI3).
     set (a3 := aend (aend a e1) [EPersist (m_cur m2) (m_data m2) ok]) in *.
+    assert (HE3 : E a3 m2 ev') by (apply (E_persist _ _ _ (m_cur m2) (m_data m2) ok) in HE2; exact HE2).
     assert (Hfin : forall mm, I a3 mm ->
               trok a (e1 ++ [EPersist (m_cur m2) (m_data m2) ok] ++ []) /\
               I (aend a (e1 ++ [EPersist (m_cur m2) (m_data m2) ok] ++ [])) mm).
@@ -113,7 +115,7 @@ Proof.
       - rewrite acc_end_app. exact Hmm. }
     destruct ok; cbn [negb] in H.
     2:{ apply ret_inv in H. destruct H as (H & _ & ->). inversion H; subst. apply Hfin. exact HI3. }
-    assert (Hrec : forall mm evx wx mx rx wy ey, I a3 mm -> E mm evx ->
+    assert (Hrec : forall mm evx wx mx rx wy ey, I a3 mm -> E a3 mm evx ->
               event_loop tc decode t fuel mm evx wx = ((mx, rx), wy, ey) ->
               trok a (e1 ++ [EPersist (m_cur m2) (m_data m2) true] ++ ey) /\
               I (aend a (e1 ++ [EPersist (m_cur m2) (m_data m2) true] ++ ey)) mx).
@@ -136,15 +138,15 @@ Qed.
 
 Definition ctx_ok_acc (a : A) (m : machine) (ev : string) (ctx : option wire_msg) : Prop :=
   match ctx with
-  | None => E m ev
+  | None => E a m ev
   | Some c =>
-      E m Ev_Invalid /\
+      E a m Ev_Invalid /\
       (forall d', validate_ctx (m_data m) c = true -> apply_ctx (m_data m) c = Some d' ->
-                  I a (m <| m_data := d' |>) /\ E (m <| m_data := d' |>) ev)
+                  I a (m <| m_data := d' |>) /\ E a (m <| m_data := d' |>) ev)
   end.
 
 Lemma persist_then_loop_acc a mm evx wx m' res w' es :
-  I a mm -> E mm evx ->
+  I a mm -> E a mm evx ->
   persist_then_loop tc decode t mm evx wx = ((m', res), w', es) ->
   trok a es /\ I (aend a es) m'.
 Proof.
@@ -153,6 +155,7 @@ Proof.
   destruct (persist_acc _ _ _ _ _ _ Hmm Hp) as (-> & T1 & HI1).
   destruct ok; cbn [negb] in Hk.
   - apply event_loop_acc with (a := aend a [EPersist (m_cur mm) (m_data mm) true]) in Hk; auto.
+    2:{ apply (E_persist _ _ _ (m_cur mm) (m_data mm) true) in HEm. exact HEm. }
     destruct Hk as [T2 HI']. split.
     + apply tr_ok_app. auto.
     + rewrite acc_end_app. exact HI'.
@@ -184,11 +187,11 @@ Qed.
 (* Recover(): the action of the CURRENT state runs on the machine as restored *)
 Hypothesis recover_rule :
   forall a m sd act, I a m -> lookup_state t (m_cur m) = Some sd -> st_action sd = Some act ->
-    (st_fail_on_recover sd = true -> E m Ev_Failed) /\
+    (st_fail_on_recover sd = true -> E a m Ev_Failed) /\
     (st_fail_on_recover sd = false ->
      forall w ev' d' w' es,
        exec tc decode action_fuel act (m_data m) w = ((ev', d'), w', es) ->
-       trok a es /\ I (aend a es) (m <| m_data := d' |>) /\ E (m <| m_data := d' |>) ev').
+       trok a es /\ I (aend a es) (m <| m_data := d' |>) /\ E (aend a es) (m <| m_data := d' |>) ev').
 
 Lemma recover_acc a m w m' res w' es :
   I a m -> recover tc decode t m w = ((m', res), w', es) -> trok a es /\ I (aend a es) m'.
@@ -216,7 +219,8 @@ Proof.
     { apply ret_inv in H. destruct H as (H & _ & ->). inversion H; subst.
       rewrite app_nil_r. split; [apply tr_ok_app; auto | rewrite acc_end_app; auto]. }
     match type of HI3 with I ?a3 _ =>
-      assert (Hc : ctx_ok_acc a3 (m <| m_data := d' |>) ev' None) by (cbn; auto);
+      assert (Hc : ctx_ok_acc a3 (m <| m_data := d' |>) ev' None)
+        by (cbn; apply (E_persist _ _ _ (m_cur (m <| m_data := d' |>)) (m_data (m <| m_data := d' |>)) true) in HE1; exact HE1);
       apply (send_event_acc a3 _ ev' None) in H; auto end.
     destruct H as [T4 HI']. split.
     + apply tr_ok_app. split; auto. apply tr_ok_app. split; auto.
@@ -229,8 +233,8 @@ Definition input_ok_acc (a : A) (m : machine) (i : input) : Prop :=
   | InEvent ev ctx => ctx_ok_acc a m ev ctx
   | InRequestIn rq => ctx_ok_acc a m "Event_SwapInReceiver_OnRequestReceived" (Some (MInReq rq))
   | InTxConfirmed hex err => False      (* not needed by the users of this rule so far: see Engine.step_rule *)
-  | InCsvPassed => E m "Event_OnCsvPassed"
-  | InTimeout => E m Ev_Timeout
+  | InCsvPassed => E a m "Event_OnCsvPassed"
+  | InTimeout => E a m Ev_Timeout
   | InRecover => True
   end.
 
